@@ -214,6 +214,12 @@ var special = [][2]string{
 	{"$a - $b . $c", "($a - $b) . $c"},
 	{"-$a . $b", "(-$a) . $b"},
 	{"$a % $b . $c", "($a % $b) . $c"},
+	// chains of ?: group to the right, as they do on the pinned tree and in every C-family
+	// language (the table names only the level of ?:; stated as an assumption of the check)
+	{"$a ? $b : $c ? $d : 7", "$a ? $b : ($c ? $d : 7)"},
+	{"$a ? $b : $c ?: $d", "$a ? $b : ($c ?: $d)"},
+	{"$a ?: $b ? $c : $d", "$a ?: ($b ? $c : $d)"},
+	{"$a ? $b ? $c : $d : 7", "$a ? ($b ? $c : $d) : 7"},
 }
 
 // forms of the recorded finding C04-dot-after-variable: '.' directly after a variable
